@@ -7,6 +7,7 @@ CONSTANTS
   Genesis <- Gen3
   Rankings <- Rank3
   Counts <- C234
+  ContentSet <- Every
   DefaultCount = 3
   MaxChanges = 4
   MaxLibLag = 4
